@@ -103,6 +103,8 @@ pub struct Hist {
     pub target_eof: Vec<(u64, u32)>,
     pub marks: Vec<(u64, String)>,
     pub reports: Vec<ReportSnap>,
+    /// (step, peer): the reader half stopped reading (until the drain phase).
+    pub freezes: Vec<(u64, u32)>,
 }
 
 pub type SharedHist = Rc<RefCell<Hist>>;
@@ -418,6 +420,9 @@ impl Future for PeerReader {
             this.polls += 1;
             if this.cfg.freeze_after > 0 && this.polls > this.cfg.freeze_after {
                 let mut s = this.shared.borrow_mut();
+                if !s.frozen {
+                    this.hist.borrow_mut().freezes.push((now_step(), this.pid));
+                }
                 s.frozen = true;
                 s.reader_waker = Some(cx.waker().clone());
                 return Poll::Pending;
@@ -939,6 +944,9 @@ pub async fn run_scenario(sc: &AgentScenario, keep_log: bool) -> RunRecord {
         // Idle.
         match phase {
             Phase::Main => {
+                // The system is idle: everything produced so far has been read by every remote
+                // that is not frozen. A good moment to look at the introspection counters.
+                snapshot_reports(&inc, &hist);
                 // Release barriers first (peers waiting for "everything produced so far has been read").
                 let mut released = false;
                 for p in &inc.peers {
